@@ -17,7 +17,7 @@ def run(ctx):
     runlib.lean_part(ctx, "RootSim.Props.C05LP", THEOREMS)
     # long runs with frequent GVT rounds so that fossil collection happens often and rollbacks follow it
     agg = runlib.run_matrix(ctx, "par re-execution (entries released by fossil collection, re-based checkpoint refs, rollbacks after fossil)",
-                            30, 500, oracle_keys=("s_rb_mismatch", "s_below_gvt"), threads=(2, 3, 4), ckpts=(1, 2, 3, 7),
+                            30, 300, oracle_keys=("s_rb_mismatch", "s_below_gvt"), threads=(2, 3, 4), ckpts=(1, 2, 3, 7),
                             fossil_heavy=True, sparse=4)
     if agg:
         ctx.coverage["distinct_nontrivial"] = agg.tot.get("s_rb_after_fossil", 0)
